@@ -247,6 +247,10 @@ pub use bwk::*;
 mod time;
 #[cfg(biscuit_verif)]
 pub use time::verif_clock;
+/// Verification hook (only with `--cfg biscuit_verif`): names the signature type so that
+/// `PublicKey::verify_signature` can be called with arbitrary signature bytes.
+#[cfg(biscuit_verif)]
+pub use crypto::Signature as VerifSignature;
 
 /// Procedural macros to construct Datalog policies
 #[cfg(feature = "datalog-macro")]
